@@ -28,8 +28,8 @@ def skeletons(tier):
     out = []
     maxn = 3 if tier == "quick" else 4
     for n in range(1, maxn + 1):
-        for w in multisets("CNM", n):
-            if "N" not in w:
+        for w in multisets("CNMY", n):
+            if "N" not in w or (tier == "quick" and w.count("Y") + w.count("M") > 1):
                 continue
             out.append({"id": f"r1-{w}", "ranks": {"0": w}})
     if tier == "thorough":
